@@ -139,10 +139,56 @@ func (c *FnCtx) buildOpKeys(fn *ssa.Function) (map[ssa.Instruction]string, map[*
 }
 
 func (c *FnCtx) opKeyOf(fr *Frame, in ssa.Instruction) string {
-	if c.og == nil || fr.depth != 0 {
+	if fr.depth != 0 {
 		return ""
 	}
-	return c.og.keys[in]
+	if c.og != nil {
+		return c.og.keys[in]
+	}
+	if c.opKeys != nil {
+		return c.opKeys[in]
+	}
+	return ""
+}
+
+// callSiteAsserts: `assert OPKEY: expr` clauses are proved immediately before the operation.
+func (c *FnCtx) callSiteAsserts(fr *Frame, st *State, in ssa.Instruction) {
+	if fr.depth != 0 || fr.contract == nil || len(fr.contract.Asserts) == 0 || c.inSpec > 0 {
+		return
+	}
+	if c.opKeys == nil {
+		c.opKeys, _ = c.buildOpKeys(fr.fn)
+		valid := map[string]bool{}
+		var names []string
+		for _, k := range c.opKeys {
+			valid[k] = true
+			names = append(names, k)
+		}
+		sort.Strings(names)
+		for k := range fr.contract.Asserts {
+			if !valid[k] {
+				c.eng.errorf("%s: `assert %s` names no operation of the function (have: %s)", fr.contract.Name, k, strings.Join(names, ", "))
+			}
+		}
+	}
+	key := c.opKeys[in]
+	if key == "" {
+		return
+	}
+	cls := fr.contract.Asserts[key]
+	if len(cls) == 0 {
+		return
+	}
+	env := c.specEnv(fr, st)
+	for i := range cls {
+		cl := &cls[i]
+		g := c.safeEvalBool(env, cl)
+		lbl := key
+		if cl.Label != "" {
+			lbl += ":" + cl.Label
+		}
+		c.addObl("assert", lbl, cl.Props, st, g, cl)
+	}
 }
 
 func (c *FnCtx) caseKeyOf(fr *Frame, sel *ssa.Select, i int) string {
@@ -613,5 +659,36 @@ func (c *FnCtx) registerDoneChan(ch Term) {
 	c.doneChans = append(c.doneChans, ch)
 	for _, p := range c.closedHavocs {
 		c.vc.Assert(Implies(Select(p[0], ch, SBool), Select(p[1], ch, SBool)))
+	}
+}
+
+// assertAll: `attr assert-all F`: every call of F in the function must carry at least one
+// call-site assertion (a new, unconstrained call site is reported).
+func (c *FnCtx) assertAll(fr *Frame) {
+	ct := fr.contract
+	if ct == nil {
+		return
+	}
+	spec, ok := ct.Attrs["assert-all"]
+	if !ok {
+		return
+	}
+	keys, _ := c.buildOpKeys(fr.fn)
+	var names []string
+	for _, k := range keys {
+		names = append(names, k)
+	}
+	sort.Strings(names)
+	for _, callee := range strings.Fields(strings.ReplaceAll(spec, ",", " ")) {
+		r := &OblResult{Name: c.eng.shortFuncName(fr.fn) + "/assert-all:" + callee, Class: "assert-all", Func: c.eng.funcKey(fr.fn), Kind: "prove",
+			Clause: "every call of " + callee + " carries a call-site assertion", Status: "discharged", Solve: SolveResult{Status: "unsat", Winner: "opkey-scan"}}
+		for _, k := range names {
+			if strings.HasPrefix(k, callee+"(") && len(ct.Asserts[k]) == 0 {
+				r.Status = "refuted"
+				r.Solve = SolveResult{Status: "sat", Winner: "opkey-scan", Model: []string{"call site without assertion: " + k}}
+			}
+		}
+		r.obl = &Obligation{Name: r.Name, Props: c.props, Kind: "prove", vc: c.vc}
+		c.decided = append(c.decided, r)
 	}
 }
